@@ -7,6 +7,9 @@ ids = [json.loads(l)["id"] for l in open(os.path.join(ROOT, "properties.jsonl"))
 TRUST = "trusted base: Linux AF_UNIX+epoll standing in for TCP (address translation, EPOLLHUP mapped to TCP semantics), the libc interposition layer, the scripted peers and reference oracles in /verif/sim; release semantics (debug assertions off); x86-64 only. A clean batch is evidence over the sampled schedules, not proof."
 
 CHECKS = {
+ "C02": dict(engine="netsim", design="5/C02", category="exploration",
+   text="Seeded deterministic simulation of the real worker with one injected cause per plan on a victim request (no route / denied / no backend / refused / black-holed connect / close on accept / backend close or stall at a byte offset / garbage / slow answer / client stall / keep-alive close) next to clean traffic; enumeration of close/stall at every response offset for small responses; the victim is judged against the cause->allowed-outcome table (exactly one answer, right status, explicit abort never a complete-looking short body, answer within the configured timeouts in virtual time), the rest by the C01 oracle.",
+   technique="deterministic simulation with fault injection at byte offsets and lifecycle points; history oracle per request; virtual-time liveness bound"),
  "C01": dict(engine="netsim", design="5/C01", category="exploration",
    text="Seeded deterministic simulation of the real worker (Server::run) with scripted H1 clients/backends: every body byte is position-keyed and verified at both ends under random fragmentation, pacing, socket-buffer sizes, epoll truncation/permutation, preemption and injected short writes/EAGAIN; liveness via virtual-time bound. Sampling, not enumeration.",
    technique="deterministic simulation (libc-interposed real worker, seeded schedules + fault injection), byte-accounting oracle"),
